@@ -32,6 +32,28 @@ ALLOWED_SETTERS = {
 }
 
 
+_CALLERS = {}
+
+
+def _owners(P, fname, depth=0):
+    """the non-helper functions on whose behalf a static helper runs: its callers, through other unlisted static helpers"""
+    if id(P) not in _CALLERS:
+        inv = {}
+        for a, bs in P.callgraph().items():
+            for b in bs:
+                inv.setdefault(b, set()).add(a)
+        _CALLERS[id(P)] = inv
+    inv = _CALLERS[id(P)]
+    res = set()
+    for c in inv.get(fname, ()):
+        cf = P.functions.get(c)
+        if base(c) in ALLOWED_SETTERS or cf is None or not cf.internal or depth > 3:
+            res.add(base(c))
+        else:
+            res |= _owners(P, c, depth + 1)
+    return res
+
+
 def run(ctx, rep):
     P = ctx.prog
     rep.explanation = ('Typestate of "synced": who may set BLK and under which flag tuples (predicate abstraction over the stripe loop), parity written iff recomputed, '
@@ -53,6 +75,10 @@ def run(ctx, rep):
             k = f.const_of(c.ops[1])
             name = inv.get(k, 'DELETED' if k == deleted else str(k))
             ok = base(f.name) in ALLOWED_SETTERS and name in ALLOWED_SETTERS[base(f.name)]
+            if not ok and base(f.name) not in ALLOWED_SETTERS and f.internal:
+                # a static helper split out of an allowed function acts on its behalf: every caller (transitively) must be allowed
+                owners = _owners(P, f.name)
+                ok = bool(owners) and all(o in ALLOWED_SETTERS and name in ALLOWED_SETTERS[o] for o in owners)
             rep.check(ok, 'R-C06-1', '%s sets %s' % (base(f.name), name), c.loc(), 'allowed' if ok else 'state %s assigned outside the functions allowed to produce it' % name, function=base(f.name), construct='block_state_set %s' % name)
             rep.analysed(f)
             n += 1
@@ -194,6 +220,8 @@ def run(ctx, rep):
     sizest = [i for i in s.all_insts() if i.op == 'store' and s.expr(i.ops[1]) == '&size']
     rep.check(len(sizest) == 1 and 'blockmax' in s.expr(sizest[0].ops[0]) and 'block_size' in s.expr(sizest[0].ops[0]) and any(c.callee == 'parity_allocated_size' for c in s.calls()), 'R-C06-8', 'size = parity_allocated_size(state) * block_size', s.file, s.expr(sizest[0].ops[0]) if sizest else '?', function='state_sync', construct='size')
     save_before_clobber_rule(P, rep, 'R-C06-12')
+    from .C07 import past_hash_cleared_rule
+    past_hash_cleared_rule(P, rep, 'R-C06-10d')
 
 
 def save_before_clobber_rule(P, rep, rid):
